@@ -182,6 +182,22 @@ fn binop(op: &str, a: &Val, b: &Val) -> Val {
     }
 }
 
+fn enc_clauses(c: &Clauses) -> String {
+    let mut s = String::from("(C");
+    for cl in c {
+        s.push_str(" (");
+        for (i, (v, p)) in cl.iter().enumerate() {
+            if i > 0 {
+                s.push(' ');
+            }
+            s.push_str(&format!("({} {})", enc_name(v), enc_bool(*p)));
+        }
+        s.push(')');
+    }
+    s.push(')');
+    s
+}
+
 fn over(a: &BTreeMap<String, bool>, r: &BTreeMap<String, bool>) -> BTreeMap<String, bool> {
     let mut m = a.clone();
     for (k, v) in r {
@@ -345,6 +361,128 @@ pub fn run_law(op: &str, args: &[String]) -> String {
             };
             format!("(L {} {} {} {})", shape(&res), names_of(&src), evals(&res, &smp), evals(&src, &smp))
         }
+        "law.eval" => {
+            // the three evaluation modes against the recipe itself (the driver evaluates the clauses)
+            let uni: Vec<String> = {
+                let mut u: Vec<String> = (0..n).map(var).collect();
+                u.push("zz".to_string());
+                u
+            };
+            let rows: Vec<String> = smp
+                .iter()
+                .map(|a| enc_bits(&uni.iter().map(|k| *a.get(k).unwrap_or(&false)).collect::<Vec<_>>()))
+                .collect();
+            let v_full = evals(&a, &smp);
+            // partial assignments: every fifth variable is missing
+            let partial: Vec<BTreeMap<String, bool>> = smp
+                .iter()
+                .map(|a| a.iter().filter(|(k, _)| k.as_str() == "zz" || k[1..].parse::<usize>().map(|i| i % 5 != 0).unwrap_or(true)).map(|(k, v)| (k.clone(), *v)).collect())
+                .collect();
+            let dflt = |v: &Val, a: &BTreeMap<String, bool>, d: bool| -> bool {
+                match v {
+                    Val::E(x) => x.evaluate_with_default(a, d),
+                    Val::T(x) => x.evaluate_with_default(a, d),
+                    Val::B(x) => x.evaluate_with_default(a, d),
+                }
+            };
+            let v_def1: Vec<bool> = partial.iter().map(|p| dflt(&a, p, true)).collect();
+            let v_def0: Vec<bool> = partial.iter().map(|p| dflt(&a, p, false)).collect();
+            let checked = |v: &Val, a: &BTreeMap<String, bool>| -> Result<bool, Vec<String>> {
+                match v {
+                    Val::E(x) => x.evaluate_checked(a),
+                    Val::T(x) => x.evaluate_checked(a),
+                    Val::B(x) => x.evaluate_checked(a),
+                }
+            };
+            let mut ck = String::from("(");
+            for (i, (s_full, s_part)) in smp.iter().zip(partial.iter()).take(12).enumerate() {
+                if i > 0 {
+                    ck.push(' ');
+                }
+                let c1 = match checked(&a, s_full) {
+                    Ok(b) => enc_bool(b),
+                    Err(m) => format!("(m {})", m.iter().map(|x| enc_name(x)).collect::<Vec<_>>().join(" ")),
+                };
+                let c2 = match checked(&a, s_part) {
+                    Ok(b) => enc_bool(b),
+                    Err(mut m) => {
+                        m.sort();
+                        format!("(m {})", m.iter().map(|x| enc_name(x)).collect::<Vec<_>>().join(" "))
+                    }
+                };
+                ck.push_str(&format!("({} {})", c1, c2));
+            }
+            ck.push(')');
+            format!(
+                "(L {} {} ({}) {} {} {} {})",
+                enc_clauses(&ca), enc_names(uni.iter()), rows.join(" "), v_full, enc_bits(&v_def1), enc_bits(&v_def0), ck
+            )
+        }
+        "law.cmp" => {
+            // equivalence / implication against variants whose relation to f is known from the clauses
+            let mut rev = ca.clone();
+            rev.reverse();
+            let f2 = as_kind(kind, &clauses_expr(&rev));
+            // flip one literal of the widest clause: a different function (read-once), witness = the
+            // assignment satisfying exactly that clause
+            let widest = (0..ca.len()).max_by_key(|i| ca[*i].len()).unwrap();
+            let mut cg = ca.clone();
+            let last = cg[widest].len() - 1;
+            cg[widest][last].1 = !cg[widest][last].1;
+            let g = as_kind(kind, &clauses_expr(&cg));
+            let c = as_kind(kind, &clauses_expr(&vec![ca[widest].clone()]));
+            let d = var(n);
+            let dl: E = ExpressionNode::Literal(d).into();
+            let fd = as_kind(kind, &(ea.clone() & (dl.clone() | !dl)));
+            let eqv = |x: &Val, y: &Val| -> bool {
+                match (x, y) {
+                    (Val::E(p), Val::E(q)) => p.is_equivalent(q),
+                    (Val::T(p), Val::T(q)) => p.is_equivalent(q),
+                    (Val::B(p), Val::B(q)) => p.is_equivalent(q),
+                    _ => panic!("HARNESS: kinds"),
+                }
+            };
+            let imp = |x: &Val, y: &Val| -> bool {
+                match (x, y) {
+                    (Val::E(p), Val::E(q)) => p.is_implied_by(q),
+                    (Val::T(p), Val::T(q)) => p.is_implied_by(q),
+                    (Val::B(p), Val::B(q)) => p.is_implied_by(q),
+                    _ => panic!("HARNESS: kinds"),
+                }
+            };
+            format!(
+                "(L {} {} {} {} {} {} {} {} {})",
+                enc_clauses(&ca), enc_clauses(&rev), enc_clauses(&cg), widest,
+                enc_bool(eqv(&a, &f2)), enc_bool(eqv(&a, &g)), enc_bool(imp(&a, &c)), enc_bool(imp(&c, &a)), enc_bool(eqv(&a, &fd))
+            )
+        }
+        "law.subst" => {
+            // one key inside the widest clause, replaced by a literal over another variable, its
+            // negation, or a fresh variable
+            let widest = (0..ca.len()).max_by_key(|i| ca[*i].len()).unwrap();
+            let key = ca[widest][ca[widest].len() / 2].0.clone();
+            let other = match rng.below(3) {
+                0 => var((n / 2 + 1) % n),
+                1 => var(0),
+                _ => "zz".to_string(),
+            };
+            let other = if other == key { "zz".to_string() } else { other };
+            let pos = rng.coin();
+            let ge = nlit(&other, pos);
+            let res = match &a {
+                Val::E(x) => Val::E(x.substitute(&[(key.clone(), ge.clone())].into_iter().collect())),
+                Val::T(x) => Val::T(x.substitute(&[(key.clone(), TruthTable::from(ge.clone()))].into_iter().collect())),
+                Val::B(x) => Val::B(x.substitute(&[(key.clone(), Bdd::try_from(ge.clone()).expect("HARNESS: literal bdd"))].into_iter().collect())),
+            };
+            let a_over: Vec<bool> = smp
+                .iter()
+                .map(|s| {
+                    let gv = *s.get(&other).unwrap_or(&false) == pos;
+                    eval(&a, &over(s, &[(key.clone(), gv)].into_iter().collect()))
+                })
+                .collect();
+            format!("(L {} {} {} {} {} {})", shape(&res), names_of(&a), enc_name(&key), enc_name(&other), evals(&res, &smp), enc_bits(&a_over))
+        }
         "law.nnf" | "law.cnf" | "law.dnf" => {
             // wide n-ary nodes: `kind` is the shape, `n` the arity
             let k = n;
@@ -398,7 +536,10 @@ pub fn run_law(op: &str, args: &[String]) -> String {
 pub fn gen_laws(cx: &mut crate::gen::Ctx, prop: &str) {
     let ops: &[&str] = match prop {
         "C01" => &["law.conv.EB", "law.conv.BE", "law.conv.ET", "law.conv.TE", "law.conv.BT"],
+        "C02" => &["law.eval"],
         "C03" => &["law.and", "law.or", "law.xor", "law.not"],
+        "C04" => &["law.cmp"],
+        "C08" => &["law.subst"],
         "C05" => &["law.restrict"],
         "C06" => &["law.exists", "law.forall"],
         "C07" => &["law.deriv"],
@@ -428,7 +569,7 @@ pub fn gen_laws(cx: &mut crate::gen::Ctx, prop: &str) {
             vec![("-", sizes)]
         } else {
             vec![
-                ("E", if *op == "law.weight" || *op == "law.essential" { vec![9, 12] } else { vec![17, 40] }),
+                ("E", if *op == "law.weight" || *op == "law.essential" || *op == "law.cmp" { vec![9, 12] } else { vec![17, 40] }),
                 ("T", if cx.thorough { vec![9, 12, 14] } else { vec![9, 12] }),
                 ("B", if cx.thorough { vec![17, 33, 54, 65, 90] } else { vec![17, 33, 54, 65] }),
             ]
